@@ -24,6 +24,22 @@ PROGRAMS = {
 }
 
 
+# endless loops in every shape: whatever the loop consists of, some step of it has to look at the cancellation signal
+_PRE = "fn yes() -> bool { true }\nfn main() { let flag = true; let n = 1; let l = [1]; "
+for _name, _loop in {
+    "while_true_empty": "while true { }", "while_flag_empty": "while flag { }", "while_cmp_empty": "while n == 1 { }",
+    "while_call_empty": "while yes() { }", "while_not_empty": "while !false { }", "while_and_empty": "while flag && true { }",
+    "loop_continue": "loop { continue; }", "loop_literal_stmt": "loop { 1; }", "loop_ident_stmt": "loop { flag; }",
+    "loop_string_stmt": "loop { \"s\"; }", "loop_empty_block": "loop { { } }", "loop_empty_if": "loop { if flag { } }",
+    "loop_empty_match": "loop { match n { 1 => { }, _ => { } } }", "loop_empty_try": "loop { try { } catch e { } }",
+    "loop_nested_empty": "loop { while flag { } }", "for_huge_empty": "for i in 0..2000000000 { }",
+    "for_huge_literal": "for i in 0..2000000000 { n; }", "loop_index": "loop { l[0]; }", "loop_member": "loop { l.len(); }",
+    "loop_in_closure": "let f = fn() -> null { loop { } }; f();", "while_in_if": "if flag { while true { } }",
+    "loop_let": "loop { let z = 1; }", "loop_assign": "loop { n = 1; }", "loop_none": "loop { none; }", "loop_null": "loop { null; }",
+}.items():
+    PROGRAMS["spin_" + _name] = (_PRE + _loop + " }\n", True, False)
+
+
 def run(args):
     rep = C.Report("C10")
     thorough = C.tier() == "thorough"
@@ -62,8 +78,9 @@ def run(args):
             raise C.Machinery("baseline run of %s ended with %s" % (name, rr["outcome"]))
         n = min(polls, kmax) if fin else kmax
         ks = list(range(1, n + 1))
-        if len(ks) > (400 if thorough else 60):
-            ks = sorted(set(ks[:25] + rnd.sample(ks, (400 if thorough else 60) - 25)))
+        cap = (400 if thorough else 60) if not name.startswith("spin_") else (40 if thorough else 10)
+        if len(ks) > cap:
+            ks = sorted(set(ks[:cap // 2] + rnd.sample(ks, cap - cap // 2)))
         for k in ks:
             plan.append((name, src, b, fin, k, rr["outcome"]["kind"], rr["out"]))
     reqs = [{"op": "run", "id": i, "a": {"modules": {"main": s}, "entry": "main", "backend": b, "trace": b == "vm",
